@@ -1062,7 +1062,7 @@ class ConditionalIdentityGaussianPDF(ConditionalGaussianPDF):
         # Sigma
         Sigma_x = jnp.tile(p_x.Sigma[None], (self.R, 1, 1, 1)).reshape(R, p_x.D, p_x.D)
         Sigma_y = (self.Sigma[:, None] + p_x.Sigma).reshape((R, self.Dy, self.Dy))
-        C_xy = p_x.Sigma
+        C_xy = Sigma_x
         Sigma_xy = jnp.block([[Sigma_x, jnp.swapaxes(C_xy, 1, 2)], [C_xy, Sigma_y]])
         # Sigma_xy = jnp.empty((R, D_xy, D_xy))
         # Sigma_xy[:,:p_x.D,:p_x.D] = Sigma_x
@@ -1089,7 +1089,7 @@ class ConditionalIdentityGaussianPDF(ConditionalGaussianPDF):
             ln_det_Sigma_xy = p_x.ln_det_Sigma + delta_ln_det
         else:
             # [R1, Dy, D] x [R1, Dy, D] = [R1, D, D]
-            LSigmaL = jnp.tile(self.Lambda[:, None], (1, p_x.R)).reshape(
+            LSigmaL = jnp.tile(self.Lambda[:, None], (1, p_x.R, 1, 1)).reshape(
                 (R, p_x.D, p_x.D)
             )
             delta_ln_det = jnp.linalg.slogdet(Lambda_x - LSigmaL)[1]
